@@ -210,7 +210,9 @@ PROPS = {
                     "Library part (c14_liboom): see DESIGN.md."),
         level_note="Failures are injected into dbus_malloc/realloc and the memory pools (what libdbus' own countdown covers), not into the kernel or libc (socket buffers, getpwuid); pairs of failures are explored for a generated gap per case, not for all pairs.",
         rule=("case = (history, request) decoded from fuzzer input, enumerated over every failing allocation index. Non-trivial = >=2 prior operations, the countdown fired in >=1 run and >=1 run ended in NoMemory; distinct = FNV-1a of the normalised history and request."),
-        phases=[P(kind="enum", bin="c14_busoom_enum", nopool_odd=True, quick=["420", "96"], thorough=["40000", "96"], shards_quick=14, shards_thorough=16)],
+        phases=[P(kind="enum", bin="c14_busoom_enum", nopool_odd=True, quick=["420", "96"], thorough=["40000", "96"], shards_quick=14, shards_thorough=16),
+                # pairs of failures: the second one a generated gap (0-11 allocations) after the first (hook H3)
+                P(kind="enum", bin="c14_busoom_enum", nopool_odd=True, quick=["100210", "96", "100000"], thorough=["120000", "96", "100000"], shards_quick=14, shards_thorough=16, env={"VP_PAIRS": "1"})],
         floor_quick=100, floor_thorough=5000,
     ),
     "C15": P(
